@@ -87,6 +87,7 @@ def ops():
         {"op": "attach_output"},
         {"op": "iadd_module"},
         {"op": "iadd_list"},
+        {"op": "iadd_list_dup"},
         {"op": "attach_pattern", "what": "fresh"},
         {"op": "attach_pattern", "what": "foreign"},
         {"op": "attach_pattern", "what": "none"},
@@ -186,6 +187,15 @@ class Own:
                 if p.patterns[-1] is not pat or pat.project is not p:
                     L["viol"].append(C.viol("iadd-pattern", {"op": k}, {}))
                 before_pats = before_pats + [pat]
+            elif k == "iadd_list_dup":
+                # the same (new) module named twice in one list, another new module in between
+                new_obj = rv.m.Amplifier()
+                other = rv.m.Generator()
+                p += [new_obj, other, new_obj]
+                if sum(1 for x in p.modules if x is new_obj) != 1 or sum(1 for x in p.modules if x is other) != 1:
+                    L["viol"].append(C.viol("module-attached-twice", {"op": k}, {"layout": [type(x).__name__ if x else None for x in p.modules]}))
+                new_obj = None
+                expect_same = False
             elif k == "attach_pattern":
                 w = op["what"]
                 if w == "foreign":
@@ -239,7 +249,7 @@ class Own:
                 L["viol"].append(C.viol("module-placement", {"op": k, "gap": None in before_mods},
                                         {"expected_index": want, "index": new_obj.index,
                                          "layout": [type(m).__name__ if m else None for m in p.modules]}))
-        elif expect_same and k not in ("attach_none",):
+        elif expect_same and k not in ("attach_none", "iadd_list_dup"):
             if len(p.modules) != len(before_mods) or any(a is not b for a, b in zip(p.modules, before_mods)):
                 L["viol"].append(C.viol("modules-moved", {"op": k}, {}))
         if k != "iadd_list" and not k.startswith("attach_pattern") and k != "bulk":
@@ -357,6 +367,9 @@ class Own:
         elif k == "iadd_list":
             place("Amplifier")
             m["pats"].append("Pattern")
+        elif k == "iadd_list_dup":
+            place("Amplifier")
+            place("Generator")
         elif k == "attach_output":
             place("Output")
         elif k == "attach_again":
